@@ -415,6 +415,9 @@ func (p *parser) mul() Expr {
 }
 
 func (p *parser) unary() Expr {
+	if p.isID("forall") || p.isID("exists") {
+		return p.quant()
+	}
 	t := p.peek()
 	if t.kind == "op" && (t.text == "!" || t.text == "-" || t.text == "^") {
 		p.p++
